@@ -60,10 +60,15 @@ def harvest(top):
                 except OSError:
                     continue
                 lines = src.split("\n")
+                # scanners built with %option prefix: file the functions under their yy names
+                mp = re.search(r"#define yy_create_buffer (\w+?)_create_buffer", src)
+                pref = mp.group(1) if mp and mp.group(1) != "yy" else None
                 with _lock:
                     g = _agg.setdefault(_group(p, src), {})
                     for le in fe["lines"]:
                         fn = le.get("function_name") or "?"
+                        if pref and fn.startswith(pref):
+                            fn = "yy" + fn[len(pref):]
                         ln = le["line_number"]
                         if not (1 <= ln <= len(lines)):
                             continue
